@@ -90,6 +90,7 @@ fn dispatch(op: &str, fields: &[&str]) -> String
 		"resolved" => alpha_ops::resolved(fields),
 		"lexd" => delta_ops::lexd(fields),
 		"delta" => delta_ops::delta(fields),
+		"dparse" => delta_ops::dparse(fields),
 		"fuzz" => delta_ops::fuzz(fields),
 		"ping" => "pong".to_string(),
 		_ => "bad-op".to_string(),
